@@ -58,6 +58,16 @@ CLAIMED = {
          'fresh-interpreter parse of the flattened prefix. D17 is a recorded known finding.',
          BASE + 'The tokenizer and parser proper are outside this model (C02/C03 not yet built); location chains are read from the '
          'exception message; statements rendered one per line.'),
+ 'C18': ('Theorems singleton_stable / singleton_first_use / singletonUse_preserves / uses_return_cached (every history of uses from any '
+         'threads) / singleton_cleared / operative_updates_commute, plus kernel-checked witnesses unlocked_race_exists and '
+         'sequential_constructs_once for the check-then-act without the lock; tied to gin.config by running 2-4 real threads whose '
+         'accesses to the singleton table, the operative record and the locks go through instrumented objects with a scheduling point '
+         'before every access, under random schedules and (two first uses) all schedules of a bounded length: constructions per key, '
+         'identity of delivered objects, exceptions, parseability of every concurrent read and equality of the final operative text with '
+         'a sequential run are checked.',
+         BASE + 'Partial: the theorems treat a lock-bracketed section as atomic (the reduction from the interleaving semantics is an '
+         'assumption, exercised by the instrumented lock); GIL atomicity of single dict operations and CPython\'s iteration checks are '
+         'runtime behaviour outside the model.'),
  'C20': ('Theorems clear_total / clear_pristine / clear_fields / clear_constants / clear_observationally_fresh (every continuation of '
          'operations) / clear_idempotent hold for every state; tied to gin.config by random histories (binds, finalize, nested unlocks, '
          'calls under scopes, singleton uses, colliding constants in interactive mode, failed operations) followed by clear_config and a '
